@@ -18,7 +18,7 @@
 // is empty) and read back through the client sockets.
 //
 // Output line:  rx=<k>:<bytes>,..  cl=<k>,..  ss=<k>.<S>.<partner>.<readbuf-len>,..  rg=<key8>><k>,..  fd=<n>
-//   rx  bytes each client socket received during this op (hex; "#len:fnv64" above 160 bytes)
+//   rx  bytes each client socket received during this op (hex; above 160 bytes: hex of the first 160 bytes, then "~<len>:<fnv64>" of the rest)
 //   cl  clients that observed their connection being closed by the server (recv()==0 / reset)
 //   ss  server sessions (private view): state C/R/I/B, partner client or -, read_buffer size
 //   rg  registered_ entries: first 8 chars of the key > client
@@ -90,7 +90,8 @@ std::string fnv64(const std::string& s) {
 
 std::string show_bytes(const std::string& s) {
     if (s.size() <= 160) return verif::to_hex(s);
-    return "#" + std::to_string(s.size()) + ":" + fnv64(s);
+    // long payloads: the first 160 bytes in clear (the relay's own announcement line is in there), the rest hashed
+    return verif::to_hex(s.substr(0, 160)) + "~" + std::to_string(s.size() - 160) + ":" + fnv64(s.substr(160));
 }
 
 std::shared_ptr<RelayServer::ClientSession> live_session(Client& c) {
